@@ -43,6 +43,10 @@ theorem bezVal_shift (u d : α) (p : P6 α) : bezVal u (p.map (· + d)) = bezVal
   simp only [bezVal, P6.map]; grind
 theorem bezVal_scale (u s : α) (p : P6 α) : bezVal u (p.map (· * s)) = bezVal u p * s := by
   simp only [bezVal, P6.map]; grind
+/-- 3b : reversing the control values mirrors the parameter (what `scale` does for a negative x scale:
+    the mirrored section, traversed with `1 - u`, has the same points) -/
+theorem bezVal_rev (u : α) (p : P6 α) : bezVal (1 - u) p.rev = bezVal u p := by
+  simp only [bezVal, P6.rev]; grind
 end ring
 
 section field
